@@ -15,6 +15,9 @@ CONSTANTS
   RealTime = FALSE
   CeilOnCut = FALSE
   CeilOnStore = FALSE
+  KindSet <- KindPos
+  Lats <- NoLat
+  CutAdmitsPast = FALSE
 INIT Init
 NEXT Next
 INVARIANTS TypeOK LeaseWithinGrant
